@@ -60,6 +60,8 @@ aes_xcbc_expand_key_sse(const void *key, void *k1_exp, void *k2, void *k3)
 
 #ifdef SAFE_DATA
         clear_mem(&keys_exp_enc, sizeof(keys_exp_enc));
+        clear_scratch_gps();
+        clear_scratch_xmms_sse();
 #endif
 }
 
@@ -87,6 +89,8 @@ aes_xcbc_expand_key_avx_common(const void *key, void *k1_exp, void *k2, void *k3
 
 #ifdef SAFE_DATA
         clear_mem(&keys_exp_enc, sizeof(keys_exp_enc));
+        clear_scratch_gps();
+        clear_scratch_xmms_avx();
 #endif
 }
 
